@@ -36,6 +36,7 @@ INT_LEAVES = [("int", 4), ("var", "a"), ("field", ("var", "p"), "x"), ("field", 
               ("tupidx", ("var", "q"), 0), ("call", "fi", [("var", "b")]), ("bin", "+", ("var", "c"), ("int", 1))]
 BOOL_LEAVES = [("bool", True), ("var", "u"), ("field", ("var", "p"), "ok"), ("field", ("field", ("var", "p"), "n"), "z"),
                ("tupidx", ("var", "q"), 1), ("call", "fb", [("var", "w")]), ("bin", "<", ("var", "c"), ("int", 1))]
+CALLFIELD = {I: ("field", ("call", "mkn", [("var", "b")]), "y"), B: ("field", ("call", "mkn", [("var", "b")]), "z")}
 # the 7th leaf kind is 'a parenthesised prefix form': rendered as (op x y) in BOTH spellings
 PAREN_PREFIX = [("bin", "+", ("var", "c"), ("int", 1)), ("bin", "<", ("var", "c"), ("int", 1))]
 
@@ -150,6 +151,14 @@ def gen_unary():
             out.append((t, ("bin", op, un(l, un(l, x)), y)))
             out.append((t, ("bin", op, ("bin", op, un(l, x), un(r, y)), un(r, y))) if t == l else (t, ("bin", op, un(l, x), y)))
             out.append((t, un(t, ("bin", op, x, y))))
+            # unary operator over a postfix chain whose head is NOT a bare identifier: a field of a call result
+            # (added after seeded change C07-m9: the parser lets unary minus take over the postfix chain of its operand,
+            # and a guard on the operand's node kind changes which node the field access attaches to)
+            cx, cy = CALLFIELD[l], CALLFIELD[r]
+            out.append((t, ("bin", op, un(l, cx), y)))
+            out.append((t, ("bin", op, x, un(r, cy))))
+            out.append((t, ("bin", op, un(l, cx), un(r, cy))))
+            out.append((t, ("bin", op, cx, y)))
     return out
 
 
@@ -170,7 +179,7 @@ def gen_deep():
 def program(cases_chunk, mode, base):
     pr = P2(mode)
     out = ["struct TN { y: int, z: bool }\nstruct TP { x: int, ok: bool, n: TN }\n",
-           "fn fi(v: int) -> int {\n    return (+ v 100)\n}\nshadow fi { assert true }\nfn fb(v: bool) -> bool {\n    return (not v)\n}\nshadow fb { assert true }\n"]
+           "fn fi(v: int) -> int {\n    return (+ v 100)\n}\nshadow fi { assert true }\nfn fb(v: bool) -> bool {\n    return (not v)\n}\nshadow fb { assert true }\nfn mkn(v: int) -> TN {\n    return TN { y: v, z: (> v 0) }\n}\nshadow mkn { assert true }\n"]
     params = ", ".join("%s: %s" % pt for pt in PARAMS)
     for k, case in enumerate(cases_chunk):
         t, e = case[0], case[1]
